@@ -1,9 +1,9 @@
-"""C03 — decided by PlMachine/PlExpr (TLA+) over generated program families: control."""
+"""C03 — decided by PlMachine/PlExpr (TLA+) over generated program families: control,errstmt."""
 from lib import gen
 from checks import machine
 
 LEVEL = "model_checking"
-FAMILIES = "control".split(",")
+FAMILIES = "control,errstmt".split(",")
 
 
 def run(ck):
